@@ -41,7 +41,7 @@ type Scenario struct {
 
 const rule = "cases = (directory tree with nesting, hidden files and directories, known / unknown / upper-case / missing extensions, same base name with different types, pre-existing .bak neighbours, symlinks to files, empty files and files the minifier rejects, different permission bits) x (invocation shape: file->file, file->stdout, stdin->stdout/file, files->dir/, -r dir and -r dir/ mirroring, in-place file and in-place tree, bundles to file and stdout, --sync, --match/--include/--exclude globs and regexps, --type override, -a, -q/-v, minifier option flags); oracle = reference model of cmd/minify/README.md computing the expected tree, stdout and exit status (content = library output for the type or the original bytes when the library fails), compared with full before/after snapshots (path, kind, bytes, permission bits, link target) of the working directory AND its parent; distinct by hash; non-trivial = >= 2 files selected, or in-place, or a failing file, or a filter that excludes something, or sync copies"
 
-var extMap = map[string]string{"css": "text/css", "htm": "text/html", "html": "text/html", "js": "application/javascript", "json": "application/json", "mjs": "application/javascript", "rss": "application/rss+xml", "svg": "image/svg+xml", "webmanifest": "application/manifest+json", "xml": "text/xml"}
+var extMap = map[string]string{"css": "text/css", "htm": "text/html", "html": "text/html", "js": "application/javascript", "json": "application/json", "mjs": "application/javascript", "rss": "application/rss+xml", "svg": "image/svg+xml", "webmanifest": "application/manifest+json", "xhtml": "application/xhtml+xml", "xml": "text/xml"}
 
 // ---------------------------------------------------------------------------
 // reference model
@@ -113,6 +113,8 @@ func parseArgs(args []string) (f flags, err error) {
 	}
 	return f, nil
 }
+
+var reJSType = regexp.MustCompile(`^(application|text)/(x-)?(java|ecma|j|live)script(1\.[0-5])?$|^module$`)
 
 func compilePattern(p string) *regexp.Regexp {
 	if len(p) == 0 || p[0] != '~' {
@@ -536,7 +538,7 @@ func runTask(ex *expectation, before fsState, t task, mimetype string, f flags, 
 	samePerm := true
 	for i, s := range t.srcs {
 		b, rs, p := read(s)
-		if i > 0 && mt == extMap["js"] {
+		if i > 0 && reJSType.MatchString(strings.TrimSpace(strings.SplitN(mt, ";", 2)[0])) { // scripts are joined with a semicolon, whatever script type was asked for
 			in = append(in, ";\n"...)
 		}
 		in = append(in, b...)
@@ -807,20 +809,22 @@ func clip(s string) string {
 // generation
 
 var contents = map[string][]string{
-	"js":   {"var a = 1 ;\nfunction f ( x ) { return x + 1 }\n", "let longName = 2 ; console.log( longName )", "", "var = ;", "if (a) { b() } else { c() }"},
-	"mjs":  {"export default function ( ) { return 1 }\n", "import a from './a.js' ; a ( )"},
-	"css":  {"a { color : #ff0000 ; margin : 0px }\n", "@media screen { b { top : 0.50em } }", "", "a{b:c}"},
-	"html": {"<html><head><title> t </title></head><body><p> a </p><script> var x = 1 ; </script></body></html>", "<p>x</p>\n", "", "<div><script>var = ;</script></div>", "<P CLASS=\"x\">  a   b  </P>\n\n<UL> <LI> one </LI> </UL>\n<script>var = ;</script>\n"},
-	"htm":  {"<p> a  b </p>"},
-	"json": {"{ \"a\" : [ 1.0 , 2 ] }\n", "[ ]", "{\"a\":}", "", "{ \"name\" : \"demo\" ,  \"list\" : [ 1 , 2 , 3 ] ,  \"broken\" : }\n"},
-	"svg":  {"<svg xmlns=\"http://www.w3.org/2000/svg\"><path d=\"M 0 0 L 10 10\"/></svg>", "<svg><!-- c --><g></g></svg>"},
-	"xml":  {"<?xml version=\"1.0\"?>\n<root>\n  <a> x </a>\n</root>\n", "<a/>"},
-	"rss":  {"<rss><channel>  <title>t</title> </channel></rss>"},
-	"txt":  {"plain  text\n", ""},
-	"":     {"no extension\n"},
-	"JS":   {"var upper = 1 ;"},
-	"bak":  {"PRECIOUS BACKUP\n"},
-	"md":   {"# readme\n"},
+	"js":          {"var a = 1 ;\nfunction f ( x ) { return x + 1 }\n", "let longName = 2 ; console.log( longName )", "", "var = ;", "if (a) { b() } else { c() }"},
+	"mjs":         {"export default function ( ) { return 1 }\n", "import a from './a.js' ; a ( )"},
+	"css":         {"a { color : #ff0000 ; margin : 0px }\n", "@media screen { b { top : 0.50em } }", "", "a{b:c}"},
+	"html":        {"<html><head><title> t </title></head><body><p> a </p><script> var x = 1 ; </script></body></html>", "<p>x</p>\n", "", "<div><script>var = ;</script></div>", "<P CLASS=\"x\">  a   b  </P>\n\n<UL> <LI> one </LI> </UL>\n<script>var = ;</script>\n"},
+	"htm":         {"<p> a  b </p>"},
+	"json":        {"{ \"a\" : [ 1.0 , 2 ] }\n", "[ ]", "{\"a\":}", "", "{ \"name\" : \"demo\" ,  \"list\" : [ 1 , 2 , 3 ] ,  \"broken\" : }\n"},
+	"svg":         {"<svg xmlns=\"http://www.w3.org/2000/svg\"><path d=\"M 0 0 L 10 10\"/></svg>", "<svg><!-- c --><g></g></svg>"},
+	"xml":         {"<?xml version=\"1.0\"?>\n<root>\n  <a> x </a>\n</root>\n", "<a/>"},
+	"rss":         {"<rss><channel>  <title>t</title> </channel></rss>"},
+	"xhtml":       {"<?xml version=\"1.0\"?>\n<html xmlns=\"http://www.w3.org/1999/xhtml\">\n  <body> <p> a </p> </body>\n</html>\n"},
+	"webmanifest": {"{ \"name\" : \"app\" , \"icons\" : [ ] }\n"},
+	"txt":         {"plain  text\n", ""},
+	"":            {"no extension\n"},
+	"JS":          {"var upper = 1 ;"},
+	"bak":         {"PRECIOUS BACKUP\n"},
+	"md":          {"# readme\n"},
 }
 
 var baseNames = []string{"a", "b", "index", "sp ace", "x.min", "dup", ".hidden", "UP", "main"}
@@ -838,7 +842,7 @@ func genFiles(t *rapid.T) []File {
 		}
 	}
 	n := rapid.IntRange(1, 9).Draw(t, "nfiles")
-	exts := []string{"js", "css", "html", "json", "svg", "xml", "txt", "mjs", "htm", "rss", "", "JS", "md"}
+	exts := []string{"js", "css", "html", "json", "svg", "xml", "txt", "mjs", "htm", "rss", "", "JS", "md", "xhtml", "webmanifest"}
 	for i := 0; i < n; i++ {
 		dir := rapid.SampledFrom([]string{".", ".", "src", "src", "src/sub", "src/.git", "lib", "src/sub/deep", "assets"}).Draw(t, "dir")
 		e := rapid.SampledFrom(exts).Draw(t, "ext")
@@ -991,6 +995,10 @@ func genScenario(t *rapid.T) Scenario {
 			same = regs
 		}
 		args = append(args, "-b")
+		if e == ".js" && rapid.IntRange(0, 2).Draw(t, "bundletype") == 0 {
+			// the type spelled out: every script type is bundled alike
+			args = append(args, "--type", rapid.SampledFrom([]string{"js", "text/javascript", "application/javascript", "application/x-javascript"}).Draw(t, "bundletypev"))
+		}
 		if rapid.Bool().Draw(t, "bundlefile") {
 			args = append(args, "-o", "bundle"+e)
 		}
